@@ -1,26 +1,21 @@
 /* C05 (url part): dup is an independent copy of the text, comp is the order of the texts with NULL first,
- * type() names the class.  Tier P, loop-free; callees by contract (spif_url_new_from_str: proved in
- * C06.url_new_from_str; spif_str_comp: ASSUMED, contracts/url.h).
+ * type() names the class.  Tier P, loop-free; callees by ASSUMED contract (spif_str_init_from_ptr,
+ * spif_str_dup, spif_str_comp, spif_obj_set_class: contracts/url.h; agent str proves them).
  *
- * url_dup: the result and every buffer / component it owns are NEW allocations (is_fresh), so no later
- * mutation or deletion of either object can reach the other; the text is the same (length, byte vg_k);
- * the original is not assigned.  Component equality is NOT claimed: spif_url_dup re-parses the text, so
- * components changed through the property setters since the last unparse are not copied
- * (finding C05-url-dup-stale).
- * (When findings/proposed/C14_url_dup_stale_components.diff lands, the replace list becomes
- *  spif_str_init_from_ptr, spif_obj_set_class, spif_str_dup - contracts are in contracts/url.h; DFCC aborts on
- *  replace entries for functions the enforced function does not call, so they cannot be listed in advance.)
+ * url_dup: the result, its text buffer and every component (object and buffer) are NEW allocations (is_fresh), so no
+ * later mutation or deletion of either object can reach the other; text and components are equal (length, bytes by
+ * ghost index); a component is present in the copy iff it is present in the original; the original is not assigned.
  * url_comp: the texts are compared by spif_str_comp; the order laws (antisymmetry, transitivity) are
  * those of the str class (agent str, C05 str units) - here: NULL ordering and reflexivity.
  */
 /*@unit
 name: url_dup
-define: U_DUP
+define: U_DUP, U_PLAIN, VERIF_NO_ASSUMED_STR_CONTRACTS
 src: url.c
-enforce: spif_url_dup
-replace: spif_url_new_from_str
 backend: sat
-objbits: 9
+flags: --memory-leak-check
+native: self
+funcs: spif_url_dup, spif_str_init_from_ptr, spif_str_dup, spif_obj_set_class
 */
 /*@unit
 name: url_comp
@@ -48,10 +43,122 @@ backend: sat
 # define VCSTR_OK(p) 1
 #endif
 #include "url.h"
+#ifdef U_PLAIN
+/* url_dup as a PLAIN harness (loop-free, nothing unwound, sizes symbolic): eight replaced str calls plus a
+ * sixteen-object precondition did not finish under DFCC in 200 s.  The three str calls are the assumed contracts
+ * of contracts/url.h written as models: fresh object / buffer, length of the source, byte vg_k copied.
+ * Native replay (native: self): the same harness against the real str.c, text and components rebuilt with the
+ * witness lengths; every byte compared. */
+# ifndef VERIF_NATIVE
+spif_bool_t spif_obj_set_class(spif_obj_t self, spif_class_t cls) { self->cls = cls; return TRUE; }
+spif_bool_t spif_str_init_from_ptr(spif_str_t self, spif_charptr_t old)
+{
+    __CPROVER_assert(self != NULL && old == vg_txt, "requires of spif_str_init_from_ptr: the original's terminated text");
+    self->parent.cls = SPIF_CLASS_VAR(str);
+    self->len = (spif_stridx_t) vg_txt_len; self->size = self->len + 1;
+    self->s = malloc(self->size);
+    self->s[self->len] = 0;
+    if (vg_k < vg_txt_len) self->s[vg_k] = old[vg_k];
+    return TRUE;
+}
+spif_str_t spif_str_dup(spif_str_t self)
+{
+    spif_str_t r = malloc(sizeof(spif_const_str_t));
+    __CPROVER_assert(self != NULL && self->s != NULL && self->len >= 0 && self->len < self->size, "requires of spif_str_dup: a string in the non-empty state");
+    r->parent.cls = self->parent.cls; r->len = self->len; r->size = self->size;      /* str.c keeps the size field */
+    r->s = malloc((size_t) self->len + 1);                                           /* ... but STRDUPs the text    */
+    r->s[r->len] = 0;
+    if (vg_k < (size_t) self->len) r->s[vg_k] = self->s[vg_k];
+    return r;
+}
+# endif
+#endif
 #include "src/url.c"
+#ifndef U_PLAIN
 #define NET_URL_API
 #include "url.h"
+#endif
 
+#ifdef U_PLAIN
+#define DCAP 64          /* native replay rebuilds texts up to this length */
+static spif_str_t mk_str(_Bool has, long len, long slack, char pat)
+{
+    spif_str_t p; long i;
+    if (!has) return NULL;
+    p = malloc(sizeof(spif_const_str_t));
+    __CPROVER_assume(len >= 0 && slack >= 0 && len < VCAP && slack < VCAP);
+#ifdef VERIF_NATIVE
+    if (len > DCAP || slack > DCAP) exit(0);
+#endif
+    p->parent.cls = SPIF_CLASS_VAR(str);
+    p->len = len; p->size = len + 1 + slack;
+    p->s = malloc(p->size);
+#ifdef VERIF_NATIVE
+    for (i = 0; i < len; i++) p->s[i] = (char) (pat + i % 20);
+#endif
+    p->s[len] = 0;
+    return p;
+}
+static void rm_str(spif_str_t p) { if (p) { free(p->s); free(p); } }
+#define SAME(r, o, what) do { \
+    __CPROVER_assert(((r) == NULL) == ((o) == NULL), "dup: " what " present in the copy iff present in the original"); \
+    if ((o) != NULL) { \
+        __CPROVER_assert((r) != (o) && (r)->s != (o)->s, "dup: " what " is a separate object with a separate buffer"); \
+        __CPROVER_assert((r)->len == (o)->len && (r)->s[(r)->len] == 0, "dup: " what " has the original's length, terminated"); \
+        SAME_BYTES(r, o, what); \
+    } } while (0)
+#ifdef VERIF_NATIVE
+# define SAME_BYTES(r, o, what) do { long i_; for (i_ = 0; i_ < (o)->len; i_++) \
+        __CPROVER_assert((r)->s[i_] == (o)->s[i_], "dup: " what " has the original's bytes"); } while (0)
+#else
+# define SAME_BYTES(r, o, what) __CPROVER_assert(!(vg_k < (size_t) (o)->len) || (r)->s[vg_k] == (o)->s[vg_k], "dup: " what " has the original's bytes")
+#endif
+void harness(void)
+{
+    spif_url_t u = malloc(sizeof(spif_const_url_t)), v;
+    spif_const_url_t before;
+    spif_str_t t;
+    libast_debug_level = VND(uint, debug_level);
+#ifndef VERIF_NATIVE
+    SPIF_CLASS_VAR(url) = &u_class; SPIF_CLASS_VAR(str) = (spif_class_t) nondet_ptr();
+#endif
+    t = mk_str(1, VND(long, text_len), VND(long, text_slack), 'A');
+    *SPIF_STR(u) = *t; free(t);
+    SPIF_STR(u)->parent.cls = SPIF_CLASS_VAR(url);
+    u->proto = mk_str(VND(bool, has_proto), VND(long, len_proto), VND(long, slack_proto), 'a');
+    u->user = mk_str(VND(bool, has_user), VND(long, len_user), VND(long, slack_user), 'b');
+    u->passwd = mk_str(VND(bool, has_passwd), VND(long, len_passwd), VND(long, slack_passwd), 'c');
+    u->host = mk_str(VND(bool, has_host), VND(long, len_host), VND(long, slack_host), 'd');
+    u->port = mk_str(VND(bool, has_port), VND(long, len_port), VND(long, slack_port), '0');
+    u->path = mk_str(VND(bool, has_path), VND(long, len_path), VND(long, slack_path), 'e');
+    u->query = mk_str(VND(bool, has_query), VND(long, len_query), VND(long, slack_query), 'f');
+    before = *u;
+#ifndef VERIF_NATIVE
+    vg_txt = SPIF_STR(u)->s; vg_txt_len = (size_t) SPIF_STR(u)->len;
+    __CPROVER_assume(vg_k < VCAP);
+#endif
+
+    v = spif_url_dup(u);
+
+    __CPROVER_assert(v != NULL && v != u, "dup: a distinct object");
+    __CPROVER_assert(SPIF_STR(v)->parent.cls == SPIF_CLASS_VAR(url), "dup: the copy is a URL object");
+    __CPROVER_assert(SPIF_STR(v)->s != SPIF_STR(u)->s && SPIF_STR(v)->len == SPIF_STR(u)->len &&
+                     SPIF_STR(v)->s[SPIF_STR(v)->len] == 0, "dup: the text is a separate buffer of the original's length, terminated");
+    SAME_BYTES(SPIF_STR(v), SPIF_STR(u), "text");
+    SAME(v->proto, u->proto, "proto"); SAME(v->user, u->user, "user"); SAME(v->passwd, u->passwd, "passwd");
+    SAME(v->host, u->host, "host"); SAME(v->port, u->port, "port"); SAME(v->path, u->path, "path"); SAME(v->query, u->query, "query");
+    __CPROVER_assert(u->proto == before.proto && u->user == before.user && u->passwd == before.passwd && u->host == before.host &&
+                     u->port == before.port && u->path == before.path && u->query == before.query &&
+                     SPIF_STR(u)->s == before.parent.s && SPIF_STR(u)->len == before.parent.len, "dup: the original is not modified");
+    VERIF_CANARY();
+    /* independence: deleting the copy leaves the original intact and vice versa; nothing is left over (leak check) */
+    rm_str(v->proto); rm_str(v->user); rm_str(v->passwd); rm_str(v->host); rm_str(v->port); rm_str(v->path); rm_str(v->query);
+    free(SPIF_STR(v)->s); free(v);
+    __CPROVER_assert(SPIF_STR(u)->s[SPIF_STR(u)->len] == 0, "dup: the original survives the deletion of the copy");
+    rm_str(u->proto); rm_str(u->user); rm_str(u->passwd); rm_str(u->host); rm_str(u->port); rm_str(u->path); rm_str(u->query);
+    free(SPIF_STR(u)->s); free(u);
+}
+#else
 void harness(void)
 {
 #if defined(U_DUP)
@@ -63,3 +170,4 @@ void harness(void)
 #endif
     VERIF_CANARY();
 }
+#endif
